@@ -1,6 +1,7 @@
 import EgVerif.Proofs.Lifecycle
 import EgVerif.Proofs.LifecycleIR
 import EgVerif.Proofs.LifecycleShutdown
+import EgVerif.Proofs.LifecycleAbort
 import EgVerif.Gen.FactsC20
 /-!
 # C20 — objects are initialised, inherited and closed exactly once as the configuration changes
@@ -685,5 +686,95 @@ def cleanSpaceGatesTwice (c : CState) : CState :=
 
 example : (cleanSpaceGatesTwice ⟨[((0, 7), ⟨0, 4, 0⟩)], [], true⟩).store = [] ∧
     (cleanSpace ⟨[((0, 7), ⟨0, 4, 0⟩)], [], true⟩).store = [((0, 7), ⟨0, 4, 0⟩)] := by decide
+
+/-! ## Audit repair (notes/AUDIT.md, C20 item 14; engineer mux): panic isolation proved, not assumed
+
+`panic_isolated` above is a congruence: the model's control flow never reads `Params.panics`. The abort
+semantics of `Proofs/LifecycleAbort.lean` (`runA`) *does*: a panic that its `…WithRecovery` wrapper does not
+recover skips the rest of the step (`Store`, `_cleanSpace`) and all remaining work of this and every later
+event. The wrappers' `recover()`s are read from the source on every run (`FactsC20.recoversFirst`). -/
+
+/-- the three `recover()` flags as regenerated from `object.go` (Init, Inherit, Close) -/
+def factsRec : Rec :=
+  match Gen.FactsC20.recoversFirst with
+  | [a, b, c] => ⟨a, b, c⟩
+  | _ => ⟨false, false, false⟩
+
+/-- **A panic in a lifecycle callback never aborts the reconciliation**: in the abort semantics, with the
+wrappers as they are in the source, every history ends un-aborted in exactly the state of the model — for
+every panic oracle, iteration order and consumer shape. All theorems above therefore hold of the abortable
+system; removing one `recover()` from the source makes `factsRec ≠ Rec.all` and breaks this proof. -/
+theorem panic_never_aborts (P : Params) (h : List Item) :
+    runA factsRec P (Sys.init, false) h = (run P Sys.init h, false) := by
+  have hr : factsRec = Rec.all := by decide
+  rw [hr]; exact runA_all P h Sys.init
+
+/-- **Panic isolation, proved on the abortable system**: whatever panics on *other* names, the calls made on
+`n` (with their flags) and the object live for `n` are the same, and the consumer goroutine is still alive. -/
+theorem panic_isolated_abortable (P : Params) (ok : P.WF) (h : List Item) (wf : HistWF h)
+    (f : Op → Name → Entity → Bool) (n : Name) (hagree : ∀ op e, f op n e = P.panics op n e) :
+    (runA factsRec { P with panics := f } (Sys.init, false) h).2 = false ∧
+    callsOf n (runA factsRec { P with panics := f } (Sys.init, false) h).1.w.cons.log =
+      callsOf n (runA factsRec P (Sys.init, false) h).1.w.cons.log ∧
+    ∀ s, (runA factsRec { P with panics := f } (Sys.init, false) h).1.w.cons.store.get (s, n) =
+      (runA factsRec P (Sys.init, false) h).1.w.cons.store.get (s, n) := by
+  rw [panic_never_aborts, panic_never_aborts]
+  obtain ⟨h1, h2⟩ := panic_isolated P ok h wf f n hagree
+  exact ⟨rfl, h1, h2⟩
+
+/-- Every object of a snapshot is reconciled although another one's callback panics: the abortable system
+makes exactly the specification's calls on every name (`exactly_once` transported). -/
+theorem exactly_once_abortable (P : Params) (ok : P.WF) (h : List Item) (wf : HistWF h) (n : Name) :
+    callsOf n (runA factsRec P (Sys.init, false) h).1.w.cons.log = callsOn P h n := by
+  rw [panic_never_aborts]; rfl
+
+/-- **Sharpness — the abort branch is real**: without the `recover()` of `InitWithRecovery`, a panicking
+`Init` of object 7 prevents object 8 of the same snapshot from being initialised (and kills the consumer);
+with it, 8 is initialised and 7's panic is only recorded. Same history, same panic oracle. -/
+private def Pab : Params :=
+  { cat := fun _ => 1, filter := fun c => c == 1, slot := fun _ => 0, createChecks := true, namespaced := false,
+    panics := fun op n _ => op == .init && n == 7, order := fun _ _ m => m }
+private def hab : List Item := [.attach, .snap [(7, some (0, 0)), (8, some (0, 1))]]
+
+example : (runA ⟨false, true, true⟩ Pab (Sys.init, false) hab).2 = true ∧
+    callsOf 8 (runA ⟨false, true, true⟩ Pab (Sys.init, false) hab).1.w.cons.log = [] ∧
+    (runA ⟨false, true, true⟩ Pab (Sys.init, false) hab).1.w.cons.store = [] := by decide
+example : (runA Rec.all Pab (Sys.init, false) hab).2 = false ∧
+    callsOf 8 (runA Rec.all Pab (Sys.init, false) hab).1.w.cons.log = [⟨.init, 8, ⟨0, 0, 1⟩, none, false⟩] ∧
+    callsOf 7 (runA Rec.all Pab (Sys.init, false) hab).1.w.cons.log = [⟨.init, 7, ⟨0, 0, 0⟩, none, true⟩] := by decide
+/-- once aborted, later snapshots are not reconciled at all -/
+example : callsOf 9 (runA ⟨false, true, true⟩ Pab (Sys.init, false) (hab ++ [.snap [(9, some (0, 2))]])).1.w.cons.log = [] ∧
+    callsOf 9 (runA Rec.all Pab (Sys.init, false) (hab ++ [.snap [(9, some (0, 2))]])).1.w.cons.log =
+      [⟨.init, 9, ⟨1, 0, 2⟩, none, false⟩] := by decide
+
+/-- **Several watchers** (`for _, watcher := range or.watchers`): each watcher + consumer is stepped with its own
+parameters on the same diff, independently of the others — component `i` of `stepAll` is `stepW` of component
+`i`; so every per-consumer theorem (`exactly_once`, `live_eq_snapshot`, `kind_change_close_init` …) applies to
+each consumer of a registry with several watchers, e.g. the supervisor closing and the traffic controller
+initialising on a cross-category change of kind. -/
+theorem stepAll_componentwise (Ps : List Params) (t : Nat) (ws : List WState) (d : Diff) (i : Nat) :
+    (stepAll Ps t ws d)[i]? =
+      match Ps[i]?, ws[i]? with
+      | some P, some w => some (stepW P t w d)
+      | _, _ => none := by
+  unfold stepAll
+  rw [List.getElem?_map]
+  have hz : ∀ (Ps : List Params) (ws : List WState) (i : Nat), (Ps.zip ws)[i]? =
+      match Ps[i]?, ws[i]? with
+      | some P, some w => some (P, w)
+      | _, _ => none := by
+    intro Ps
+    induction Ps with
+    | nil => intro ws i; simp
+    | cons P Ps ih =>
+      intro ws i
+      cases ws with
+      | nil => cases h : (P :: Ps)[i]? <;> simp
+      | cons w ws =>
+        cases i with
+        | zero => simp
+        | succ i => simpa using ih ws i
+  rw [hz]
+  cases Ps[i]? <;> cases ws[i]? <;> rfl
 
 end EgVerif.C20
